@@ -120,7 +120,7 @@ class NumResults:
 
 def engine_hash():
     h = hashlib.sha256()
-    for f in ("num.py", "models.py", "contracts.py", "lin.py", "numrun.py", "facts.py", "flow.py", "cfg.py"):
+    for f in ("num.py", "models.py", "contracts.py", "lin.py", "numrun.py", "facts.py", "flow.py", "cfg.py", "inline.py", "baseline_fns.txt"):
         with open(os.path.join(HERE, f), "rb") as fh:
             h.update(fh.read())
     return h.hexdigest()[:12]
@@ -145,7 +145,8 @@ def run(ctx, jobs=None):
         return r
     t0 = time.time()
     _FACTS = facts
-    paths = [b.path for b in facts.body_list if not b.dead and facts.bodies[b.path] is b]
+    # a helper whose every use was inlined is analysed in the context of its callers only
+    paths = [b.path for b in facts.body_list if not b.dead and facts.bodies[b.path] is b and not b.inlined_everywhere]
     jobs = jobs or int(os.environ.get("GSA_JOBS", "12"))
     sys.setrecursionlimit(10000)
     if jobs > 1:
